@@ -256,7 +256,8 @@ def doDatum (cs : List Char) (round : Bool) : String :=
   | some (d, []) =>
     if hasFloat d then "unmodelled"
     else
-      let text := write d
+      -- the writer with its mutable nesting counter (equal to `write d` by `write_depth_balanced`)
+      let text := (writeSt d 0).1
       if !round then s!"text={hexOfText text}"
       else
         let back := read text
